@@ -304,7 +304,7 @@ class Engine:
                     if kind == 'normal':
                         out += self.run(pc + 1, st2, c3, entry=False)
                     elif kind == 'goto':
-                        out += self.jump_value(tgt, st2, c3)
+                        out += self.jump_value(tgt, st2, c3, 'defeat')      # a child that reached (virtual) defeat: `j [defeat]`
                     elif kind == 'jump':
                         out += self.jump_label(tgt, st2, c3)
                     else:
@@ -417,7 +417,8 @@ class Engine:
     def jump_operand(self, o, st, cond, txt=''):
         if o.kind == 'imm' and o.expr[0] == 'lbl':
             return self.jump_label(o.expr[1], st, cond)
-        return self.jump_value(self.val(st, cond, o, txt), st, cond)
+        kind = 'defeat' if self.named(o) == 'defeat' else 'ra'
+        return self.jump_value(self.val(st, cond, o, txt), st, cond, kind)
 
     def jump_label(self, n, st, cond):
         if n in isa.TERMINAL and getattr(self.ctx, 'use_stub_contracts', True):
@@ -440,13 +441,22 @@ class Engine:
         if n in isa.TERMINAL:
             st = st.copy(); st.trace = st.trace + tuple(('flag', f) for f in isa.TERMINAL[n])
             return [Leaf(cond, 'term', n, st)]
+        ext = getattr(self.ctx, 'external', None)
+        if ext is not None:
+            # modular: a jump to a function label is replaced by the callee's contract (call protocol)
+            r = ext(self, n, st, cond)
+            if r is not None:
+                return r
         return [Leaf(cond, 'exit', n, st)]
 
-    def jump_value(self, v, st, cond):
-        """indirect jump: case split over the fragment's own labels and `halt`; the rest is an 'ijump' leaf"""
+    def jump_value(self, v, st, cond, kind='any'):
+        """indirect jump: case split over the fragment's own labels and `halt`; the rest is an 'ijump' leaf.
+        I-defeat / call protocol (preconditions): the defeat word holds `halt` or a try handler label; a return address
+        holds an end_call label (or all_is_win), never `halt` and never a handler."""
         c = self.ctx
         out = []; rest = list(cond)
-        ok = getattr(c, 'indirect_targets', None) or (lambda n: n == 'halt' or n.startswith(('try_handler', 'end_call')))
+        pref = {'defeat': ('try_handler',), 'ra': ('end_call',), 'any': ('try_handler', 'end_call')}[kind]
+        ok = getattr(c, 'indirect_targets', None) or (lambda n: (n == 'halt' and kind != 'ra') or n.startswith(pref))
         for n in [n for n in ['halt'] + list(self.labels) if ok(n)]:
             eq = v == c.label(n)
             if self.sat(cond + [eq]):
